@@ -29,7 +29,7 @@ Proof. intros S st st' pi pj d fd it ww ft fnm. reflexivity. Qed.
 
 Lemma C12_lemma : C12_statement.
 Proof.
-  repeat split.
+  split; [|split; [|split; [|split]]].
   - exact join_non_none_perm.
   - exact ir_merge_perm.
   - exact parse_function_perm.
